@@ -202,7 +202,8 @@ def _playback(d, h, mode, features, per_timeout):
     out = p.stdout
     m = re.search(r"Concrete playback unit test for `[^`]*`:\s*```(.*?)```", out, re.S)
     test = m.group(1).strip() if m else None
-    fails = "\n".join(re.findall(r"(?ms)^Check \d+:.*?- Status: FAILURE.*?(?=^Check |\Z)", out))[:3000]
+    blocks = re.split(r"(?m)^(?=Check \d+: )", out)
+    fails = "\n".join(b.strip() for b in blocks if re.match(r"Check \d+: ", b) and "Status: FAILURE" in b)[:3000]
     return test, fails
 
 
